@@ -1,8 +1,70 @@
-(* C06 — rationals are exact, canonical, NaN absorbing: property theorems. *)
-From Coq Require Import List NArith ZArith Bool.
-From HV Require Import Model.Big Model.Rat Model.NumText Proofs.RatBase.
-Open Scope N_scope.
+(* C06 — rationals compute exactly, stay canonical, NaN is absorbing.  Property theorems only.
+   Model: coq/Model/Rat.v.  [nval n : option Q] is the mathematical value (None = NaN), [wfn] the canonical
+   form (parts well-formed, denominator >= 0, lowest terms, NaN = ±1/0), [oq_eq] is Qeq lifted to option. *)
+From Coq Require Import List NArith ZArith QArith Qround Bool.
+Import ListNotations.
+From HV Require Import Model.Big Model.Rat Model.NumText Proofs.RatBase Proofs.RatSpec Proofs.RatAll Proofs.TextAll.
+Open Scope Z_scope.
 
+Theorem C06_add : forall a b, wfn a -> wfn b ->
+  wfn (nadd a b) /\ oq_eq (nval (nadd a b)) (lift2 Qplus (nval a) (nval b)).
+Proof. exact nadd_t. Qed.
+Print Assumptions C06_add.
+
+Theorem C06_mul : forall a b, wfn a -> wfn b ->
+  wfn (nmul a b) /\ oq_eq (nval (nmul a b)) (lift2 Qmult (nval a) (nval b)).
+Proof. exact nmul_t. Qed.
+Print Assumptions C06_mul.
+
+Theorem C06_neg : forall a, wfn a ->
+  wfn (nneg a) /\ oq_eq (nval (nneg a)) (option_map Qopp (nval a)) /\ nminus a = nneg a.
+Proof. exact nneg_t. Qed.
+Print Assumptions C06_neg.
+
+(* reciprocal; of zero: NaN; of NaN: NaN *)
+Theorem C06_flip : forall a, wfn a ->
+  wfn (nflip a) /\
+  oq_eq (nval (nflip a)) (match nval a with Some q => if Qeq_bool q 0 then None else Some (/ q)%Q | None => None end).
+Proof. exact nflip_t. Qed.
+Print Assumptions C06_flip.
+
+Theorem C06_floor : forall a q, wfn a -> nval a = Some q -> (0 <= q)%Q -> wf (floor a) /\ bval (floor a) = Qfloor q.
+Proof. exact floor_t. Qed.
+Print Assumptions C06_floor.
+
+Theorem C06_is_pos : forall a, wfn a -> (is_pos a = true <-> exists q, nval a = Some q /\ (0 <= q)%Q).
+Proof. exact is_pos_t. Qed.
+Print Assumptions C06_is_pos.
+
+(* canonical form: structural equality coincides with numeric equality *)
+Theorem C06_canonical_unique : forall a b q q', wfn a -> wfn b -> nval a = Some q -> nval b = Some q' -> (q == q')%Q -> a = b.
+Proof. exact wfn_unique_t. Qed.
+Print Assumptions C06_canonical_unique.
+
+Theorem C06_struct_eq : forall a b q q', wfn a -> wfn b -> nval a = Some q -> nval b = Some q' ->
+  (neq a b = true <-> (q == q')%Q).
+Proof. exact neq_t. Qed.
+Print Assumptions C06_struct_eq.
+
+(* construction: reduce any integer pair (not both zero); covers Num::new / from_big_num *)
+Theorem C06_reduce : forall u d, wf u -> wf d -> (bval u <> 0 \/ bval d <> 0) ->
+  wfn (optimize (mknum u d)) /\ oq_eq (nval (optimize (mknum u d))) (frac (bval u) (bval d)).
+Proof. exact optimize_t. Qed.
+Print Assumptions C06_reduce.
+
+Theorem C06_from_num : forall n, Z.abs n < 2 ^ 127 -> wfn (from_num n) /\ nval (from_num n) = Some (inject_Z n).
+Proof. exact from_num_t. Qed.
+Print Assumptions C06_from_num.
+
+(* printed form: integers without denominator, p/q otherwise, the fixed text for NaN *)
+Theorem C06_display : forall n, wfn n ->
+  num_display n = if is_nan n then NAN_TEXT
+                  else if (bval (down n) =? 1) then big_display (up n)
+                  else big_display (up n) ++ [CH_SLASH] ++ big_display (down n).
+Proof. exact num_display_t. Qed.
+Print Assumptions C06_display.
+
+(* NaN absorbing, independent of well-formedness *)
 Theorem C06_nan_absorbing_add : forall a b, is_nan a = true \/ is_nan b = true -> nadd a b = nan.
 Proof. exact nadd_absorbs. Qed.
 Print Assumptions C06_nan_absorbing_add.
@@ -18,3 +80,19 @@ Print Assumptions C06_nan_flip.
 Theorem C06_nan_text : forall a, is_nan a = true -> num_display a = NAN_TEXT.
 Proof. exact nan_display. Qed.
 Print Assumptions C06_nan_text.
+Theorem C06_is_nan : forall a, wfn a -> (is_nan a = true <-> nval a = None).
+Proof. exact is_nan_t. Qed.
+Print Assumptions C06_is_nan.
+
+(* the pinned tree (before fix 94453d1) broke the canonical form: -1/2 reduced by a negative gcd *)
+Theorem C06_optimize_pre_fix_refuted :
+  exists u d, wfb u = true /\ wfb d = true /\ bval d <> 0 /\ bpos (down (optimize_pre_fix (mknum u d))) = false.
+Proof. exists (mkbig false [2%N]), (mkbig true [4%N]). vm_compute. repeat split; try reflexivity; discriminate. Qed.
+Print Assumptions C06_optimize_pre_fix_refuted.
+
+Example C06_examples :
+  wfnb (nadd (nnew (-1) 2) (nnew 1 3)) = true /\ num_display (nadd (nnew (-1) 2) (nnew 1 3)) = [45; 49; 47; 54]%N /\
+  wfnb (nflip (nnew (-6) 4)) = true /\ num_display (nflip (nnew (-6) 4)) = [45; 50; 47; 51]%N /\
+  is_nan (nflip (nnew 0 5)) = true.
+Proof. vm_compute. repeat split; reflexivity. Qed.
+Print Assumptions C06_examples.
